@@ -76,9 +76,9 @@ def run(ctx):
     return ctx.finish(
         rule=("dumps of %d representative generated stacks (greedy cover of every layer kind, small payloads first): (1) EVERY proper prefix of the "
               "dump (complete when the dump is <= 1500 bytes (6000 thorough); otherwise the first and last 600 bytes and every 13th offset); (2) every "
-              "occurrence of a global/per-layer header magic, header tag, footer magic, footer tag and float-width word replaced by {0, one-bit flips "
-              "of each byte, +-0x20000000 (header<->footer form), the other magic, three real layer tags, another layer's tag from the same dump, "
-              "random}; width words by {0,1,2,3,5,6,7,9,16,byte-swapped 4/8, the other valid width, random}; (3) a stream buffer that fails (EOF-style "
+              "occurrence of a global/per-layer header magic, header tag, footer magic, footer tag and float-width word replaced by {every one of its 32 "
+              "single-bit flips, 0, +-0x20000000 (header<->footer form), the other magic, real layer tags incl. the CUDA array's, another layer's tag "
+              "from the same dump, all bits inverted, random}; width words by {all 32 single-bit flips, 0,1,2,3,5,6,7,9,16, byte-swapped 4/8, the other valid width, random}; (3) a stream buffer that fails (EOF-style "
               "and by throwing from underflow/xsgetn) from the n-th read call for every n (strided when a load needs > 400 calls), and a stream "
               "that has failed before loading; (4) %d ordered pairs of stacks whose on-disk signatures differ, including every chosen stack against its sibling over another storage order (identical payload layout, only the tag differs).  Accepted outcome: an exception "
               "derived from std::exception leaves field(std::istream&).  Monitors: outcome classification in ASan+UBSan builds with assertions on "
